@@ -46,6 +46,14 @@ def coq_batch(b):
 def py_record(r):
     from kio.records.schema import Record, RecordHeader
 
+    if r.get("tzoffset") is not None:
+        # a fixed-offset zone, built from the local wall time: the instant (r["timestamp"], in UTC) may lie beyond
+        # datetime.max in UTC while the local time is representable
+        off = r["tzoffset"]
+        local = datetime.datetime(1970, 1, 1) + datetime.timedelta(microseconds=r["timestamp"] + off * 60 * 10**6)
+        ts = local.replace(tzinfo=datetime.timezone(datetime.timedelta(minutes=off)))
+        return Record(attributes=r["attributes"], timestamp=ts, offset=r["offset"], key=r["key"], value=r["value"],
+                      headers=tuple(RecordHeader(key=k, value=v) for k, v in r["headers"]))
     ts = EPOCH + datetime.timedelta(microseconds=r["timestamp"])
     if r.get("tz"):
         import zoneinfo
@@ -126,7 +134,19 @@ def gen_new_batch(r: random.Random, canonical_ms=True):
             "headers": ([(gen_blob(r), gen_blob(r)) for _ in range(r.choice([0, 0, 1, 3]))] if r.random() > 0.04 or n > 12 else
                         # header COUNT at the zig-zag varint edges (64 needs two bytes), tiny headers
                         [(r.choice([None, b"", b"k"]), r.choice([None, b"", b"v"])) for _ in range(r.choice([63, 64, 65, 127, 128]))])})
-    if r.random() < 0.15:
+    if r.random() < 0.04:
+        # "end of time" sentinels: local 9999-12-31T23:59:59 in zones behind UTC (the instant is beyond datetime.max in UTC,
+        # its millisecond count still fits an int64 easily), and ordinary times in fixed-offset zones
+        local_max_us = (datetime.datetime.max.replace(microsecond=0) - datetime.datetime(1970, 1, 1)) // datetime.timedelta(microseconds=1)
+        off = r.choice([-300, -720, -1])
+        for k, rec in enumerate(recs):
+            rec["timestamp"] = local_max_us - off * 60 * 10**6 - 1000000 * (len(recs) - 1 - k)
+            rec["tzoffset"] = off
+    elif r.random() < 0.1:
+        off = r.choice([60, -300, 765, 330])
+        for rec in recs:
+            rec["tzoffset"] = off
+    if r.random() < 0.15 and "tzoffset" not in recs[0]:
         # two instants one hour apart that share a wall-clock time in a DST zone (fold 0 / fold 1)
         zone, first = r.choice([("Europe/Berlin", 1698539400), ("America/New_York", 1699162200), ("Europe/London", 1729989000)])
         a, b = (first, first + 3600) if r.random() < 0.5 else (first + 3600, first)
